@@ -451,7 +451,7 @@ pub fn main_for<P: Property>(args: &[String]) -> i32 {
         P::init();
         quiet_panics();
         let root = PathBuf::from(&dir);
-        start_watchdog(if tier == Tier::Thorough { 14_400 } else { P::case_timeout_s().max(600) }, root.join("extra.hang.json"));
+        start_watchdog(if tier == Tier::Thorough { 14_400 } else { P::case_timeout_s().max(120) }, root.join("extra.hang.json"));
         let mut env = Env::new(&root.join("extra-scratch"), tier, 98);
         let extra = P::extra(tier, &mut env, seed);
         let _ = std::fs::write(root.join("extra.json"), serde_json::to_vec(&extra).unwrap_or_default());
